@@ -1,13 +1,17 @@
 /-
   Props/C08.lean — C08: position maps and mappings obey the documented mapping algebra.
 
-  Property theorems only (helper lemmas live in Proofs/Map.lean).  Coordinates of range `i` of a
+  Property theorems only (helper lemmas live in Proofs/Map.lean, MapMirror.lean, MapAlgebra.lean,
+  MapCompose.lean, MirrorTable.lean).  Coordinates of range `i` of a
   map are given in closed form by prefix sums (`quad`), independently of the scanning loop of
   `StepMap._map`; the theorems say the loop computes exactly the documented rule over them.
 -/
 import PM.Map
 import Proofs.Map
 import Proofs.MapMirror
+import Proofs.MapAlgebra
+import Proofs.MapCompose
+import Proofs.MirrorTable
 namespace PM.C08
 open PM
 
@@ -586,5 +590,584 @@ example (m : StepMap) :
     · split at h
       · simp only [Option.some.injEq] at h; subst h; simp
       · simp at h
+
+/-! ### the mapping algebra: what the composed mappings *map like*
+
+  `mapFold ms a p` (PM/MapFold.lean) sends `p` through the maps `ms` left to right with the one
+  association side `a`; `delFold ms a p 0` ORs the deletion-info bits met on the way.  "`r1`, then
+  `f`" below is spelled out with `Option.bind`/`Option.map`: `none` (an IndexError of the code)
+  propagates, positions are chained, deletion flags are OR-ed. -/
+
+/-- `append_mapping` of a mapping without maps changes nothing (not even `to`) -/
+theorem appendMapping_empty (m n : Mapping) (h : n.maps = []) : m.appendMapping n = m := by
+  unfold Mapping.appendMapping; rw [h]; rfl
+
+theorem appendMappingInverted_empty (m n : Mapping) (h : n.maps = []) : m.appendMappingInverted n = m := by
+  unfold Mapping.appendMappingInverted; rw [h]; rfl
+
+/-- **`append_mapping`, mirror-less, as a fold** (no side condition at all): the receiver's maps from
+    its `from_` on — its `to` is reset — then *all* maps of the other mapping — its `from_`/`to` are
+    ignored —, left to right, for either association side; `map_result` ORs the flags. -/
+theorem appendMapping_map_spec_plain (m n : Mapping) (hm : m.mirror = []) (hn : n.mirror = [])
+    (hne : n.maps ≠ []) (p a : Int) :
+    (m.appendMapping n).mapResult p a =
+      some { pos := mapFold ((m.maps ++ n.maps).drop m.from_) a p,
+             delInfo := delFold ((m.maps ++ n.maps).drop m.from_) a p 0 } ∧
+    (m.appendMapping n).map p a = some (mapFold ((m.maps ++ n.maps).drop m.from_) a p) := by
+  have h1 := appendMapping_mapResult_plain m n hm hn hne p a
+  refine ⟨h1, ?_⟩
+  have hto : (m.appendMapping n).to ≤ (m.appendMapping n).maps.length := by
+    rw [(appendMapping_mirror m n).2.2, appendMapping_maps]
+    have : n.maps.length ≠ 0 := fun h => hne (List.eq_nil_of_length_eq_zero h)
+    simp [this]
+  rw [map_eq_mapResult _ hto, h1]; rfl
+
+/-- **`append_mapping`, composition law** (`map_result`, either association side; tables in which no
+    index is registered twice, mirror-less ones included): the result maps like the receiver read
+    from its `from_` to its last map, then the whole other mapping — the carried-over mirror pairs
+    jump exactly where the other mapping's pairs jump —, deletion flags OR-ed. -/
+theorem appendMapping_map_spec (m n : Mapping) (hm : MirrorFunctional m) (hn : MirrorFunctional n)
+    (hne : n.maps ≠ []) (hf : m.from_ ≤ m.maps.length) (p a : Int) :
+    (m.appendMapping n).mapResult p a =
+      ((m.slice m.from_).mapResult p a).bind (fun r1 =>
+        ((n.slice 0).mapResult r1.pos a).map (fun r2 =>
+          { pos := r2.pos, delInfo := r1.delInfo ||| r2.delInfo })) :=
+  appendMapping_mapResult m n hne hm.1 hm.2.2 hm.inRange hn.sym hn.inRange hf p a
+
+/-- … and when the receiver's `from_` lies at or beyond its last map, the walk starts inside the
+    appended part: the other mapping read from `from_ − len` (its own bounds still ignored) -/
+theorem appendMapping_map_spec_late (m n : Mapping) (hm : MirrorFunctional m) (hn : MirrorFunctional n)
+    (hne : n.maps ≠ []) (hf : m.maps.length ≤ m.from_) (p a : Int) :
+    (m.appendMapping n).mapResult p a = (n.slice (m.from_ - m.maps.length)).mapResult p a :=
+  appendMapping_mapResult_late m n hne hm.1 hm.2.2 hn.sym hn.inRange hf p a
+
+/-- … and for `Mapping.map` -/
+theorem appendMapping_map_spec_pos (m n : Mapping) (hm : MirrorFunctional m) (hn : MirrorFunctional n)
+    (hne : n.maps ≠ []) (hf : m.from_ ≤ m.maps.length) (p a : Int) :
+    (m.appendMapping n).map p a =
+      ((m.slice m.from_).map p a).bind (fun q => (n.slice 0).map q a) := by
+  have hto : (m.appendMapping n).to ≤ (m.appendMapping n).maps.length := by
+    rw [(appendMapping_mirror m n).2.2, appendMapping_maps]
+    have : n.maps.length ≠ 0 := fun h => hne (List.eq_nil_of_length_eq_zero h)
+    simp [this]
+  rw [map_eq_mapResult _ hto, appendMapping_map_spec m n hm hn hne hf,
+    map_eq_mapResult (m.slice m.from_) (Nat.le_refl _)]
+  cases (m.slice m.from_).mapResult p a with
+  | none => rfl
+  | some r1 =>
+    simp only [Option.bind_some, Option.map_some, Option.map_map]
+    rw [map_eq_mapResult (n.slice 0) (Nat.le_refl _)]
+    cases (n.slice 0).mapResult r1.pos a <;> rfl
+
+/-- `append_map(map)` (no mirror argument) is `append_mapping` of the one-map mapping -/
+theorem appendMap_eq_appendMapping (m : Mapping) (sm : StepMap) :
+    m.appendMap sm = m.appendMapping (Mapping.ofMaps [sm]) := rfl
+
+/-- **`append_map`, composition law**: the receiver read from `from_` to its end, then the new map -/
+theorem appendMap_map_spec (m : Mapping) (sm : StepMap) (hm : MirrorFunctional m)
+    (hf : m.from_ ≤ m.maps.length) (p a : Int) :
+    (m.appendMap sm).mapResult p a =
+      ((m.slice m.from_).mapResult p a).map (fun r1 =>
+        { pos := sm.map r1.pos a, delInfo := r1.delInfo ||| (sm.mapResult r1.pos a).delInfo }) := by
+  rw [appendMap_eq_appendMapping,
+    appendMapping_map_spec m _ hm (ofMaps_functional [sm]) (by simp [Mapping.ofMaps]) hf]
+  cases (m.slice m.from_).mapResult p a with
+  | none => rfl
+  | some r1 =>
+    simp only [Option.bind_some, Option.map_some]
+    have : (Mapping.ofMaps [sm]).slice 0 = Mapping.ofMaps [sm] := rfl
+    rw [this, ofMaps_mapResult]
+    simp [mapFold, delFold]
+
+/-- **`append_mapping_inverted`, mirror-less, as a fold**: the receiver's maps from its `from_` on,
+    then the inverted maps of the other mapping, last map first -/
+theorem appendMappingInverted_map_spec_plain (m n : Mapping) (hm : m.mirror = []) (hn : n.mirror = [])
+    (hne : n.maps ≠ []) (p a : Int) :
+    (m.appendMappingInverted n).mapResult p a =
+      some { pos := mapFold ((m.maps ++ n.maps.reverse.map StepMap.invert).drop m.from_) a p,
+             delInfo := delFold ((m.maps ++ n.maps.reverse.map StepMap.invert).drop m.from_) a p 0 } ∧
+    (m.appendMappingInverted n).map p a =
+      some (mapFold ((m.maps ++ n.maps.reverse.map StepMap.invert).drop m.from_) a p) := by
+  have h1 := appendMappingInverted_mapResult_plain m n hm hn hne p a
+  refine ⟨h1, ?_⟩
+  have hto : (m.appendMappingInverted n).to ≤ (m.appendMappingInverted n).maps.length := by
+    rw [(appendMappingInverted_mirror m n).2.2, appendMappingInverted_maps]
+    have : n.maps.length ≠ 0 := fun h => hne (List.eq_nil_of_length_eq_zero h)
+    simp [this]
+  rw [map_eq_mapResult _ hto, h1]; rfl
+
+/-- **`append_mapping_inverted`, composition law**: the receiver read from its `from_` to its last
+    map, then `other.invert()` — the reflected mirror pairs included —, flags OR-ed -/
+theorem appendMappingInverted_map_spec (m n : Mapping) (hm : MirrorFunctional m) (hn : MirrorFunctional n)
+    (hne : n.maps ≠ []) (hf : m.from_ ≤ m.maps.length) (p a : Int) :
+    (m.appendMappingInverted n).mapResult p a =
+      ((m.slice m.from_).mapResult p a).bind (fun r1 =>
+        (n.invert.mapResult r1.pos a).map (fun r2 =>
+          { pos := r2.pos, delInfo := r1.delInfo ||| r2.delInfo })) :=
+  appendMappingInverted_mapResult m n hne hm.1 hm.2.2 hm.inRange hn.sym hn.inRange hf p a
+
+theorem appendMappingInverted_map_spec_late (m n : Mapping) (hm : MirrorFunctional m) (hn : MirrorFunctional n)
+    (hne : n.maps ≠ []) (hf : m.maps.length ≤ m.from_) (p a : Int) :
+    (m.appendMappingInverted n).mapResult p a =
+      (n.invert.slice (m.from_ - m.maps.length) (some n.maps.length)).mapResult p a := by
+  rw [appendMappingInverted_mapResult_late m n hne hm.1 hm.2.2 hn.sym hn.inRange hf p a, invert_to]
+
+/-- **`Mapping.invert`, mirror-less**: mapping through the inverted mapping is folding the inverted
+    maps in reverse order (the `from_`/`to` of the original are ignored: *all* its maps) -/
+theorem mappingInvert_map_spec (mp : Mapping) (hm : mp.mirror = []) (p a : Int) :
+    mp.invert.mapResult p a =
+      some { pos := mp.maps.foldr (fun m q => m.invert.map q a) p,
+             delInfo := delFold (mp.maps.reverse.map StepMap.invert) a p 0 } ∧
+    mp.invert.map p a = some (mp.maps.foldr (fun m q => m.invert.map q a) p) := by
+  have h1 := invert_mapResult_plain mp hm p a
+  refine ⟨h1, ?_⟩
+  rw [map_eq_mapResult _ (by rw [invert_to, invert_maps]; simp), h1]; rfl
+
+/-- **inversion is an involution** (up to the bounds, which `invert` resets): inverting twice gives
+    back the maps, the mirror partnerships, and a mapping that maps like the original read as a whole -/
+theorem mappingInvert_involutive (mp : Mapping) (h : MirrorFunctional mp) :
+    mp.invert.invert.maps = mp.maps ∧
+    (∀ j, j < mp.maps.length → mp.invert.invert.getMirror j = mp.getMirror j) ∧
+    (∀ p a, mp.invert.invert.mapResult p a = (mp.slice 0).mapResult p a) :=
+  ⟨invert_invert_maps mp, invert_invert_getMirror mp h, invert_invert_mapResult mp h⟩
+
+/-- `append_mapping_inverted`, composition law for `Mapping.map` -/
+theorem appendMappingInverted_map_spec_pos (m n : Mapping) (hm : MirrorFunctional m) (hn : MirrorFunctional n)
+    (hne : n.maps ≠ []) (hf : m.from_ ≤ m.maps.length) (p a : Int) :
+    (m.appendMappingInverted n).map p a =
+      ((m.slice m.from_).map p a).bind (fun q => n.invert.map q a) := by
+  have hto : (m.appendMappingInverted n).to ≤ (m.appendMappingInverted n).maps.length := by
+    rw [(appendMappingInverted_mirror m n).2.2, appendMappingInverted_maps]
+    have : n.maps.length ≠ 0 := fun h => hne (List.eq_nil_of_length_eq_zero h)
+    simp [this]
+  rw [map_eq_mapResult _ hto, appendMappingInverted_map_spec m n hm hn hne hf,
+    map_eq_mapResult (m.slice m.from_) (Nat.le_refl _)]
+  cases (m.slice m.from_).mapResult p a with
+  | none => rfl
+  | some r1 =>
+    simp only [Option.bind_some, Option.map_some, Option.map_map]
+    rw [map_eq_mapResult n.invert (by rw [invert_to, invert_maps]; simp)]
+    cases n.invert.mapResult r1.pos a <;> rfl
+
+/-! ### round trip of a whole mapping through its inverse -/
+
+private theorem insideResult_flags_ne_zero (q : Quad) (i : Nat) (pos a : Int) :
+    (insideResult q i pos a).delInfo ≠ 0 := by
+  simp only [insideResult, DEL_AFTER, DEL_BEFORE, DEL_ACROSS, DEL_SIDE]
+  repeat' split
+  all_goals decide
+
+/-- **no deletion flag at all = outside every range**: `map_result` reports `del_info = 0` exactly
+    for the positions strictly between two consecutive ranges (before the first, after the last) -/
+theorem no_flags_iff_outside (m : StepMap) (hwf : WF 0 m.ranges) (pos a : Int) :
+    (m.mapResult pos a).delInfo = 0 ↔
+      ∃ k, k ≤ m.ranges.length ∧ (∀ j, j < k → (quad m j).oldEnd < pos) ∧
+        (k < m.ranges.length → pos < (quad m k).oldStart) := by
+  constructor
+  · intro h
+    rcases locate_quad m pos with ⟨i, hi, hf, h1, h2⟩ | ⟨k, hk, hb, ha⟩
+    · rw [map_inside m hwf pos a i hi hf h1 h2] at h
+      exact absurd h (insideResult_flags_ne_zero _ _ _ _)
+    · exact ⟨k, hk, hb, ha⟩
+  · rintro ⟨k, hk, hb, ha⟩
+    rw [map_outside m hwf pos a k hk hb ha]
+
+/-- one map: a position that gets no deletion flag is brought back by the inverse map, whatever the
+    two association sides -/
+theorem invert_roundtrip_no_flags (m : StepMap) (hwf : WF 0 m.ranges) (pos a a' : Int)
+    (h : (m.mapResult pos a).delInfo = 0) : m.invert.map (m.map pos a) a' = pos := by
+  obtain ⟨k, hk, hb, ha⟩ := (no_flags_iff_outside m hwf pos a).1 h
+  exact invert_roundtrip_outside m hwf pos a a' k hk hb ha
+
+private theorem roundtrip_fold (a a' : Int) : ∀ (ms : List StepMap), (∀ m ∈ ms, WF 0 m.ranges) →
+    ∀ p, delFold ms a p 0 = 0 → unwind a' ms (mapFold ms a p) = p
+  | [], _, _, _ => rfl
+  | m :: ms, hwf, p, h => by
+    rw [delFold, delFold_or] at h
+    have h' := Nat.or_eq_zero_iff.mp h
+    have hm0 : (m.mapResult p a).delInfo = 0 := by
+      have := h'.1; rwa [Nat.zero_or] at this
+    rw [mapFold_cons]
+    show m.invert.map (unwind a' ms (mapFold ms a (m.map p a))) a' = p
+    rw [roundtrip_fold a a' ms (fun x hx => hwf x (List.mem_cons_of_mem _ hx)) _ h'.2]
+    exact invert_roundtrip_no_flags m (hwf m List.mem_cons_self) p a a' hm0
+
+/-- **Inverse round trip of a whole mapping** (mirror-less): a position that `map_result` reports
+    without any deletion flag — it lies outside every replaced range of every map, followed along
+    (`no_flags_iff_outside`) — is brought back by `mapping.invert()`, whatever the association sides
+    of the two passes.  Positions inside replaced ranges need the mirror registrations
+    (`mirror_roundtrip_chain`, `mirror_jump_spec`). -/
+theorem invert_roundtrip_mapping (mp : Mapping) (hm : mp.mirror = []) (hfrom : mp.from_ = 0)
+    (hto : mp.to = mp.maps.length) (hwf : ∀ m ∈ mp.maps, WF 0 m.ranges) (p a a' : Int) (r : MapResult)
+    (hr : mp.mapResult p a = some r) (hdel : r.delInfo = 0) :
+    mp.invert.map r.pos a' = some p := by
+  rw [mapResult_plain mp hm (by omega), hfrom, hto, List.take_length, List.drop_zero] at hr
+  cases hr
+  rw [(mappingInvert_map_spec mp hm _ a').2]
+  exact congrArg some (roundtrip_fold a a' mp.maps hwf p hdel)
+
+/-- non-vacuity: a two-map history; position 7 lies after the range of the first map and before the
+    range of the second one (followed along), gets no flag and comes back; position 3 lies inside
+    the deleted range of the first map, is flagged and does not come back -/
+example :
+    let mp := Mapping.ofMaps [⟨[(2, 2, 0)], false⟩, ⟨[(8, 0, 3)], false⟩]
+    mp.mapResult 7 1 = some { pos := 5, delInfo := 0 } ∧ mp.invert.map 5 (-1) = some 7 ∧
+    (mp.mapResult 3 1).map (·.delInfo) = some 12 ∧ mp.invert.map 2 1 ≠ some 3 := by decide
+
+/-! ### one mirrored pair inside a longer chain -/
+
+/-- a recover value is handed out exactly when `deleted` is reported -/
+theorem recover_iff_deleted (m : StepMap) (hwf : WF 0 m.ranges) (pos a : Int) :
+    (m.mapResult pos a).recover.isSome = (m.mapResult pos a).deleted := by
+  rcases locate_quad m pos with ⟨i, hi, hf, h1, h2⟩ | ⟨k, hk, hb, ha⟩
+  · rw [map_inside m hwf pos a i hi hf h1 h2]
+    rw [Bool.eq_iff_iff, insideResult_eq, insideRes_deleted]
+    simp only [insideRes]
+    by_cases ha : a < 0 <;> simp [ha]
+  · rw [map_outside m hwf pos a k hk hb ha, deleted_plain]; rfl
+
+/-- the inverse map turns the recover value of a position back into the position -/
+theorem recover_roundtrip (m : StepMap) (hwf : WF 0 m.ranges) (pos a : Int) (rv : Nat × Int)
+    (h : (m.mapResult pos a).recover = some rv) : m.invert.recover rv = some pos := by
+  rcases locate_quad m pos with ⟨i, hi, hf, h1, h2⟩ | ⟨k, hk, hb, ha⟩
+  · rw [map_inside m hwf pos a i hi hf h1 h2] at h
+    simp only [insideResult] at h
+    by_cases hrec : pos = (if a < 0 then (quad m i).oldStart else (quad m i).oldEnd)
+    · rw [if_pos hrec] at h; cases h
+    · rw [if_neg hrec] at h
+      cases h
+      rw [recover_spec m i _ hi]
+      congr 1; omega
+  · rw [map_outside m hwf pos a k hk hb ha] at h; cases h
+
+/-- **Mirror shortcut, one pair inside a longer chain**: the walk stands at map `i` (anything may
+    precede it), map `j` — after `i`, before the upper bound `b` — is registered as its mirror and is
+    its inverse, and map `i` reports the position as deleted.  Then the position is recovered
+    unchanged and the walk continues at `j + 1`: maps `i … j` leave no trace on the result, neither
+    on the position nor on the deletion flags (any maps between them, any further mirror pairs). -/
+theorem mirror_jump_spec (mp : Mapping) (i j b : Nat) (sm : StepMap) (q a : Int)
+    (hsm : mp.maps[i]? = some sm) (hmir : mp.getMirror i = some j) (hij : i < j) (hjb : j < b)
+    (hcm : mp.maps[j]? = some sm.invert) (hwf : WF 0 sm.ranges)
+    (hdel : (sm.mapResult q a).deleted = true) :
+    (mp.slice i (some b)).mapResult q a = (mp.slice (j + 1) (some b)).mapResult q a := by
+  have hs : (sm.mapResult q a).recover.isSome = true := by rw [recover_iff_deleted sm hwf, hdel]
+  obtain ⟨rv, hrv⟩ := Option.isSome_iff_exists.mp hs
+  exact slice_jump mp i j b sm sm.invert q a rv q hsm hmir hij hjb hcm hrv
+    (recover_roundtrip sm hwf q a rv hrv)
+
+/-- … and when map `i` does not report the position as deleted, or has no mirror after it inside
+    the slice, it is applied like any map and the walk goes on at `i + 1` -/
+theorem mirror_nojump_spec (mp : Mapping) (i b : Nat) (sm : StepMap) (q a : Int) (hib : i < b)
+    (hsm : mp.maps[i]? = some sm) (hwf : WF 0 sm.ranges)
+    (h : (sm.mapResult q a).deleted = false ∨ ∀ c, mp.getMirror i = some c → ¬ (c > i ∧ c < b)) :
+    (mp.slice i (some b)).mapResult q a =
+      ((mp.slice (i + 1) (some b)).mapResult (sm.map q a) a).map (fun r2 =>
+        { pos := r2.pos, delInfo := (sm.mapResult q a).delInfo ||| r2.delInfo }) := by
+  rw [slice_nojump_step mp i b sm q a hib hsm (h.imp (fun hd => by
+    have := recover_iff_deleted sm hwf q a
+    rw [hd] at this
+    cases hr : (sm.mapResult q a).recover with
+    | none => rfl
+    | some rv => rw [hr] at this; cases this) id)]
+  rfl
+
+/-- non-vacuity (rebasing shape `A⁻¹, B, A` with `A⁻¹ ↔ A` mirrored): position 3 is deleted by
+    map 0, whose mirror is map 2; the walk jumps over map 1 and continues after map 2 -/
+example :
+    let A : StepMap := ⟨[(2, 0, 3)], false⟩
+    let mp : Mapping := { maps := [A.invert, ⟨[(0, 0, 4)], false⟩, A, ⟨[(0, 1, 0)], false⟩],
+                          mirror := [2, 0], from_ := 0, to := 4 }
+    (A.invert.mapResult 3 1).deleted = true ∧
+    (mp.slice 0 (some 4)).mapResult 3 1 = (mp.slice 3 (some 4)).mapResult 3 1 ∧
+    mp.mapResult 3 1 = some { pos := 2, delInfo := 0 } ∧
+    (Mapping.ofMaps mp.maps).mapResult 3 1 = some { pos := 8, delInfo := 12 } := by decide
+
+/-! ### slices, both bounds explicit -/
+
+/-- **slice, mirror-less, `map` and `map_result`**: exactly the maps with index `a' ≤ i < b`, left to
+    right — nothing before `a'`, nothing at or after `b` — for either association side -/
+theorem slice_map_spec (mp : Mapping) (hm : mp.mirror = []) (a' b : Nat) (hb : b ≤ mp.maps.length)
+    (p a : Int) :
+    (mp.slice a' (some b)).mapResult p a =
+      some { pos := mapFold ((mp.maps.take b).drop a') a p,
+             delInfo := delFold ((mp.maps.take b).drop a') a p 0 } ∧
+    (mp.slice a' (some b)).map p a = some (mapFold ((mp.maps.take b).drop a') a p) :=
+  ⟨mapResult_plain (mp.slice a' (some b)) hm hb p a, map_plain (mp.slice a' (some b)) hm hb p a⟩
+
+/-- the fast path of `Mapping.map` raises IndexError exactly when the loop reaches `len(maps)` -/
+theorem slice_map_out_of_range (mp : Mapping) (hm : mp.mirror = []) (a' b : Nat) (p a : Int) :
+    (mp.slice a' (some b)).map p a = none ↔ (mp.maps.length < b ∧ a' < b) := by
+  simp only [Mapping.map, Mapping.slice, hm, List.isEmpty_nil, if_true, Option.getD_some]
+  split <;> simp <;> omega
+
+/-- **slice, upper bound, any mirror table**: the maps at or after the upper bound are never
+    consulted (`b ≤ len(maps)` is not even needed) -/
+theorem slice_upper_bound (mp : Mapping) (a' b : Nat) (p a : Int) :
+    (mp.slice a' (some b)).mapResult p a =
+      (({ mp with maps := mp.maps.take b }).slice a' (some b)).mapResult p a :=
+  slice_upper mp a' b p a
+
+/-- **slice with mirrors, no complete pair inside**: a mirror pair is followed only when both its
+    maps lie inside the slice; a slice that contains no such pair is the plain composition -/
+theorem slice_no_pair_inside (mp : Mapping) (a' b : Nat) (hb : b ≤ mp.maps.length)
+    (hno : ∀ i c, a' ≤ i → mp.getMirror i = some c → ¬ (i < c ∧ c < b)) (p a : Int) :
+    (mp.slice a' (some b)).mapResult p a =
+      some { pos := mapFold ((mp.maps.take b).drop a') a p,
+             delInfo := delFold ((mp.maps.take b).drop a') a p 0 } := by
+  apply slice_nojump mp a' b hb
+  intro j hj _
+  cases h : jumpT (mp.slice a' (some b)) j with
+  | none => rfl
+  | some c =>
+    obtain ⟨g, g1, g2⟩ := jumpT_some h
+    exact absurd ⟨g1, g2⟩ (hno j c hj g)
+
+/-- **slices compose**: `slice(a', b)` is `slice(a', L)` then `slice(L, b)` whenever no mirror pair
+    that the walk could follow starts before `L` and ends at or after it -/
+theorem slice_split_spec (mp : Mapping) (a' L b : Nat) (h1 : a' ≤ L) (h2 : L ≤ b)
+    (hns : ∀ j c, j < L → mp.getMirror j = some c → j < c → c < b → c < L) (p a : Int) :
+    (mp.slice a' (some b)).mapResult p a =
+      ((mp.slice a' (some L)).mapResult p a).bind (fun r1 =>
+        ((mp.slice L (some b)).mapResult r1.pos a).map (fun r2 =>
+          { pos := r2.pos, delInfo := r1.delInfo ||| r2.delInfo })) :=
+  slice_split mp a' L b h1 h2 hns p a
+
+/-- non-vacuity of `slice_split_spec` / `slice_no_pair_inside` (rebasing shape `A⁻¹, B, A, C` with
+    `A⁻¹ ↔ A`): index 3 is not straddled, so the whole is `slice(0, 3)` then `slice(3, 4)`; index 1 is
+    straddled by the pair: `slice(0, 1)` reports the deletion (flags 12) that the whole walk jumps
+    over; the slice `[1, 4)` holds no complete pair and is the plain composition of its three maps -/
+example :
+    let A : StepMap := ⟨[(2, 0, 3)], false⟩
+    let mp : Mapping := { maps := [A.invert, ⟨[(0, 0, 4)], false⟩, A, ⟨[(0, 1, 0)], false⟩],
+                          mirror := [2, 0], from_ := 0, to := 4 }
+    (∀ j c, j < 3 → mp.getMirror j = some c → j < c → c < 4 → c < 3) ∧
+    (∀ i c, 1 ≤ i → mp.getMirror i = some c → ¬ (i < c ∧ c < 4)) ∧
+    (mp.slice 0 (some 4)).mapResult 3 1 = some { pos := 2, delInfo := 0 } ∧
+    (mp.slice 0 (some 3)).mapResult 3 1 = some { pos := 3, delInfo := 0 } ∧
+    (mp.slice 3 (some 4)).mapResult 3 1 = some { pos := 2, delInfo := 0 } ∧
+    (mp.slice 0 (some 1)).mapResult 3 1 = some { pos := 2, delInfo := 12 } ∧
+    (mp.slice 1 (some 4)).mapResult 3 1 = some { pos := 9, delInfo := 0 } := by
+  intro A mp
+  have hg : ∀ j c, mp.getMirror j = some c → (j = 0 ∧ c = 2) ∨ (j = 2 ∧ c = 0) := by
+    intro j c h
+    simp only [mp, Mapping.getMirror, getMirrorAux] at h
+    split at h
+    · simp only [Option.some.injEq] at h; omega
+    · split at h
+      · simp only [Option.some.injEq] at h; omega
+      · cases h
+  refine ⟨fun j c _ h _ _ => ?_, fun i c hi h => ?_, by decide⟩
+  · rcases hg j c h with ⟨_, _⟩ | ⟨_, _⟩ <;> omega
+  · rcases hg i c h with ⟨_, _⟩ | ⟨_, _⟩ <;> omega
+
+/-- non-vacuity of the two bounds: three maps that each insert one token at 0; the slice `[1, 2)`
+    applies exactly one of them, and so does it on the mapping cut after two maps -/
+example :
+    let mp := Mapping.ofMaps [⟨[(0, 0, 1)], false⟩, ⟨[(0, 0, 1)], false⟩, ⟨[(0, 0, 1)], false⟩]
+    (mp.slice 1 (some 2)).map 5 1 = some 6 ∧ (mp.slice 0 (some 2)).map 5 1 = some 7 ∧
+    (mp.slice 1 (some 3)).map 5 1 = some 7 ∧ (mp.slice 1 (some 4)).map 5 1 = none ∧
+    (mp.slice 4 (some 4)).map 5 1 = some 5 := by decide
+
+/-! ### tables with an index registered twice, and why the builders never make one -/
+
+/-- **`get_mirror` on any table: first match wins** — the flat list is scanned from the front and
+    the first occurrence of `n` decides (its neighbour inside the pair is returned); later pairs that
+    contain `n` are never seen -/
+theorem getMirror_first_match (mp : Mapping) (n a b : Nat) (A B : List Nat)
+    (htab : mp.mirror = A ++ a :: b :: B) (hev : A.length % 2 = 0) (hA : n ∉ A) (hab : a = n ∨ b = n) :
+    mp.getMirror n = some (if a = n then b else a) := by
+  unfold Mapping.getMirror; rw [htab]; exact getMirrorAux_first n a b A B hev hA hab
+
+/-- a table with an index registered twice: the first registration answers for the index itself,
+    the partner of the second registration still points back to it — partners are no longer mutual -/
+example :
+    let mp : Mapping := { maps := [], mirror := [1, 0, 2, 0] }
+    mp.getMirror 0 = some 1 ∧ mp.getMirror 2 = some 0 ∧ mp.getMirror 1 = some 0 ∧
+    ¬ MirrorFunctional mp ∧ ¬ MirrorSym mp := by
+  refine ⟨rfl, rfl, rfl, by decide, fun h => ?_⟩
+  have := (h 2 0 rfl).1
+  cases this
+
+/-- **functional tables** (`MirrorFunctional`: pairs, no index twice, every index names a map):
+    partners are mutual, distinct and in range — the `get_mirror` family of the theorems above -/
+theorem functional_getMirror (mp : Mapping) (h : MirrorFunctional mp) (i k : Nat)
+    (hg : mp.getMirror i = some k) :
+    mp.getMirror k = some i ∧ k ≠ i ∧ i < mp.maps.length ∧ k < mp.maps.length :=
+  ⟨(h.sym i k hg).1, (h.sym i k hg).2, h.key_lt i k hg, h.2.2 k (getMirrorAux_mem i mp.mirror k hg).2⟩
+
+/-- **every builder stays inside the family**: the empty mapping and `Mapping(maps)` are functional;
+    `append_map` without a mirror argument, `append_map(map, k)` with `k` an earlier map that has no
+    partner yet, `append_mapping`, `append_mapping_inverted`, `invert` and `slice` produce functional
+    tables from functional tables. -/
+theorem functional_preserved :
+    MirrorFunctional ({} : Mapping) ∧
+    (∀ ms, MirrorFunctional (Mapping.ofMaps ms)) ∧
+    (∀ m sm, MirrorFunctional m → MirrorFunctional (m.appendMap sm)) ∧
+    (∀ m sm k, MirrorFunctional m → k < m.maps.length → m.getMirror k = none →
+      MirrorFunctional (m.appendMap sm (some k))) ∧
+    (∀ m n, MirrorFunctional m → MirrorFunctional n → MirrorFunctional (m.appendMapping n)) ∧
+    (∀ m n, MirrorFunctional m → MirrorFunctional n → MirrorFunctional (m.appendMappingInverted n)) ∧
+    (∀ m, MirrorFunctional m → MirrorFunctional m.invert) ∧
+    (∀ m a b, MirrorFunctional m → MirrorFunctional (m.slice a b)) ∧
+    (∀ ms, MirrorFunctional (palindrome ms)) :=
+  ⟨empty_functional, ofMaps_functional, appendMap_none_functional, appendMap_some_functional,
+    appendMapping_functional, appendMappingInverted_functional, invert_functional,
+    slice_functional, palindrome_functional⟩
+
+/-- the side condition of `append_map(map, k)` is necessary: the code does not check it, and
+    registering a partner that already has one (or the new map itself) leaves the family -/
+example :
+    let sm : StepMap := ⟨[], false⟩
+    let m0 := (Mapping.ofMaps [sm]).appendMap sm (some 0)
+    MirrorFunctional m0 ∧ ¬ MirrorFunctional (m0.appendMap sm (some 0)) ∧
+    ¬ MirrorFunctional (m0.appendMap sm (some 2)) := by decide
+
+/-! ### one mirrored block inside a longer chain -/
+
+/-- **Mirror round trip, embedded**: the undo block of a history (`palindrome ms`: the maps, then
+    their inverses with mirrors) appended after arbitrary maps `pre` and followed by arbitrary maps
+    `post` — all through `append_mapping` — is invisible: the whole maps like `pre` then `post`, for
+    every position (also inside content deleted by maps of `ms`) and either association side. -/
+theorem mirror_roundtrip_embedded (pre ms post : List StepMap)
+    (h : ∀ m ∈ ms, StrictWF 0 m.ranges) (p a : Int) :
+    (((Mapping.ofMaps pre).appendMapping (palindrome ms)).appendMapping (Mapping.ofMaps post)).map p a =
+      some (mapFold post a (mapFold pre a p)) := by
+  obtain ⟨A, hAdef⟩ : ∃ A, A = (Mapping.ofMaps pre).appendMapping (palindrome ms) := ⟨_, rfl⟩
+  rw [← hAdef]
+  have hA : MirrorFunctional A := by
+    rw [hAdef]
+    exact appendMapping_functional _ _ (ofMaps_functional pre) (palindrome_functional ms)
+  have hAfrom : A.from_ = 0 := by rw [hAdef]; exact (appendMapping_mirror _ _).2.1
+  have hAto : A.to = A.maps.length := by
+    rw [hAdef, (appendMapping_mirror _ _).2.2, appendMapping_maps]
+    by_cases hl : (palindrome ms).maps.length = 0
+    · rw [if_pos hl, List.eq_nil_of_length_eq_zero hl]; simp [Mapping.ofMaps]
+    · rw [if_neg hl]; simp
+  have hAself : A.slice A.from_ = A := by
+    cases hA' : A with
+    | mk maps mirror from_ to =>
+      rw [hA'] at hAto
+      simp only [Mapping.slice, Option.getD_none] at hAto ⊢
+      rw [hAto]
+  -- the receiver with the undo block maps like the receiver
+  have hAres : ∃ d, A.mapResult p a = some { pos := mapFold pre a p, delInfo := d } := by
+    by_cases hms : ms = []
+    · subst hms
+      have : A = Mapping.ofMaps pre := by rw [hAdef]; exact appendMapping_empty _ _ rfl
+      rw [this, ofMaps_mapResult]
+      exact ⟨_, rfl⟩
+    · have hpalne : (palindrome ms).maps ≠ [] := by
+        rw [(palindrome_isPalindrome ms).maps]
+        cases ms with
+        | nil => exact absurd rfl hms
+        | cons x xs => simp
+      have hpalself : (palindrome ms).slice 0 = palindrome ms := by
+        rw [palindrome_eq]; simp [Mapping.slice]; omega
+      have hpreself : (Mapping.ofMaps pre).slice (Mapping.ofMaps pre).from_ = Mapping.ofMaps pre := rfl
+      rw [hAdef, appendMapping_map_spec _ _ (ofMaps_functional pre) (palindrome_functional ms) hpalne
+        (Nat.zero_le _), hpreself, hpalself, ofMaps_mapResult]
+      simp only [Option.bind_some]
+      have hpal := mirror_roundtrip_chain ms h (mapFold pre a p) a
+      have hne : (palindrome ms).mirror.isEmpty = false := by
+        cases hE : (palindrome ms).mirror.isEmpty with
+        | false => rfl
+        | true =>
+          have := (palindrome_isPalindrome ms).mirror 0 (by have := List.length_pos_iff.mpr hms; omega)
+          rw [getMirrorAux_none_of_nil _ hE] at this
+          cases this
+      simp only [Mapping.map, hne, Bool.false_eq_true, if_false] at hpal
+      cases hq : (palindrome ms).mapResult (mapFold pre a p) a with
+      | none => rw [hq] at hpal; cases hpal
+      | some r =>
+        rw [hq] at hpal
+        simp only [Option.map_some, Option.some.injEq] at hpal
+        exact ⟨delFold pre a p 0 ||| r.delInfo, by simp only [Option.map_some, hpal]⟩
+  obtain ⟨d, hd⟩ := hAres
+  by_cases hpost : post = []
+  · subst hpost
+    rw [appendMapping_empty A _ rfl, map_eq_mapResult A (by omega), hd]
+    rfl
+  · have hpostne : (Mapping.ofMaps post).maps ≠ [] := hpost
+    have hpostself : (Mapping.ofMaps post).slice 0 = Mapping.ofMaps post := rfl
+    have hto : (A.appendMapping (Mapping.ofMaps post)).to ≤ (A.appendMapping (Mapping.ofMaps post)).maps.length := by
+      have hl : (Mapping.ofMaps post).maps.length ≠ 0 := fun h0 => hpostne (List.eq_nil_of_length_eq_zero h0)
+      rw [(appendMapping_mirror _ _).2.2, appendMapping_maps, if_neg hl]; simp
+    rw [map_eq_mapResult _ hto,
+      appendMapping_map_spec A _ hA (ofMaps_functional post) hpostne (by rw [hAfrom]; omega),
+      hAself, hpostself, hd]
+    simp only [Option.bind_some, ofMaps_mapResult, Option.map_some]
+
+/-- non-vacuity: position 4 is moved to 5 by `A`, position 5 lies inside the range `B` deletes; the
+    undo block `B, B⁻¹` between `A` and `C` leaves no trace -/
+example :
+    let A : StepMap := ⟨[(1, 0, 1)], false⟩
+    let B : StepMap := ⟨[(3, 4, 0)], false⟩
+    let C : StepMap := ⟨[(0, 1, 0)], false⟩
+    (∀ m ∈ [B], StrictWF 0 m.ranges) ∧ (B.mapResult (A.map 4 1) 1).deleted = true ∧
+    (((Mapping.ofMaps [A]).appendMapping (palindrome [B])).appendMapping (Mapping.ofMaps [C])).map 4 1 =
+      some 4 ∧ mapFold [C] 1 (mapFold [A] 1 4) = 4 := by
+  intro A B C
+  refine ⟨?_, by decide⟩
+  intro m hm
+  simp only [List.mem_cons, List.not_mem_nil, or_false] at hm
+  subst hm
+  simp [B, StrictWF]
+
+/-- **Mirror shortcut inside a chain, from the start of the walk**: no followed pair leaves the part
+    of the mapping before map `i`; that part produces `r1`; map `i` reports `r1.pos` as deleted and
+    its mirror `j` (its inverse) lies after it inside the mapping.  Then the whole mapping maps like
+    the part before `i` followed by the part after `j`: maps `i … j` are skipped altogether. -/
+theorem mirror_jump_in_chain (mp : Mapping) (i j : Nat) (sm : StepMap) (p a : Int) (r1 : MapResult)
+    (hfi : mp.from_ ≤ i) (hsm : mp.maps[i]? = some sm) (hmir : mp.getMirror i = some j) (hij : i < j)
+    (hjt : j < mp.to) (hcm : mp.maps[j]? = some sm.invert) (hwf : WF 0 sm.ranges)
+    (hns : ∀ k c, k < i → mp.getMirror k = some c → k < c → c < mp.to → c < i)
+    (h1 : (mp.slice mp.from_ (some i)).mapResult p a = some r1)
+    (hdel : (sm.mapResult r1.pos a).deleted = true) :
+    mp.mapResult p a =
+      ((mp.slice (j + 1) (some mp.to)).mapResult r1.pos a).map (fun r2 =>
+        { pos := r2.pos, delInfo := r1.delInfo ||| r2.delInfo }) := by
+  have hself : mp.slice mp.from_ (some mp.to) = mp := by cases mp; rfl
+  rw [← hself, slice_split_spec mp mp.from_ i mp.to hfi (by omega) hns p a, h1]
+  simp only [Option.bind_some]
+  rw [mirror_jump_spec mp i j mp.to sm r1.pos a hsm hmir hij hjt hcm hwf hdel]
+  rw [hself]
+
+/-- **forward, then back, in one mapping** (`append_mapping_inverted` of a mapping onto itself, no
+    mirrors): positions that get no deletion flag on the way out come back -/
+theorem appendMappingInverted_roundtrip (ms : List StepMap) (hne : ms ≠ [])
+    (hwf : ∀ m ∈ ms, WF 0 m.ranges) (p a : Int) (h : delFold ms a p 0 = 0) :
+    ((Mapping.ofMaps ms).appendMappingInverted (Mapping.ofMaps ms)).map p a = some p := by
+  rw [(appendMappingInverted_map_spec_plain (Mapping.ofMaps ms) (Mapping.ofMaps ms) rfl rfl hne p a).2]
+  show some (mapFold ((ms ++ ms.reverse.map StepMap.invert).drop 0) a p) = some p
+  rw [List.drop_zero, mapFold_append, mapFold_reverse_invert, roundtrip_fold a a ms hwf p h]
+
+/-! ### non-vacuity of the composition laws with mirrors -/
+
+/-- `append_mapping` of an undo block (`B, B⁻¹` mirrored) onto a receiver `[A]`: all hypotheses of
+    `appendMapping_map_spec` hold; position 4 survives `A` (→ 5), is deleted by `B` and recovered
+    through the carried-over pair `[2, 1]`; without the pair it would end up elsewhere (→ 7) -/
+example :
+    let A : StepMap := ⟨[(1, 0, 1)], false⟩
+    let B : StepMap := ⟨[(3, 4, 0)], false⟩
+    let m := Mapping.ofMaps [A]
+    let n := palindrome [B]
+    MirrorFunctional m ∧ MirrorFunctional n ∧ n.maps ≠ [] ∧ m.from_ ≤ m.maps.length ∧
+    (m.appendMapping n).mirror = [2, 1] ∧
+    (m.appendMapping n).mapResult 4 1 = some { pos := 5, delInfo := 0 } ∧
+    (Mapping.ofMaps (m.appendMapping n).maps).map 4 1 = some 7 := by decide
+
+/-- `append_mapping_inverted` of a rebasing-shaped mapping (`A⁻¹, C, A` with `A⁻¹ ↔ A`): the result
+    carries the reflected pair and maps like the receiver followed by `other.invert()` -/
+example :
+    let A : StepMap := ⟨[(2, 0, 3)], false⟩
+    let C : StepMap := ⟨[(0, 0, 4)], false⟩
+    let n : Mapping := (((({} : Mapping).appendMap A.invert).appendMap C).appendMap A (some 0))
+    let m := Mapping.ofMaps [⟨[(0, 0, 1)], false⟩]
+    MirrorFunctional m ∧ MirrorFunctional n ∧ n.mirror = [2, 0] ∧
+    (m.appendMappingInverted n).mirror = [3, 1] ∧ n.invert.mirror = [2, 0] ∧
+    (m.appendMappingInverted n).mapResult 2 1 = some { pos := 3, delInfo := 0 } ∧
+    (n.invert.mapResult 3 1) = some { pos := 3, delInfo := 0 } ∧
+    (Mapping.ofMaps (m.appendMappingInverted n).maps).mapResult 2 1 ≠ some { pos := 3, delInfo := 0 } := by
+  decide
 
 end PM.C08
